@@ -38,4 +38,9 @@ var corpus = []string{
 	`local t = {}; local k = 1; t[k], k = "v", 2; emit(t[1], t[2], k); local a, i = {}, 1; a[i], i = 10, i + 1; emit(a[1], a[2], i)`,
 	`local n = 0; for i = 0, 1, 0 do n = n + 1; if n > 3 then break end end; emit(n)`,
 	`local t = {10,20,30,nil}; emit(#t); t[#t+1] = 40; emit(#t, t[4]); local u = {n=1, [1]="a", [2]="b"}; emit(#u, u.n)`,
+	// fixed 80dc40d / 26e5bc0: values and tables of a multiple assignment are read before any store
+	`local a=1; local t={}; t[1], a = a, 5; emit(t[1], a); local c=1; local v={}; v[1], c, v[2] = c, 9, c; emit(v[1], c, v[2])`,
+	`local x=1; local z={}; local function g() x=7 return 2 end; z.k, z.j = x, g(); emit(z.k, z.j, x)`,
+	`local t = {}; local u = t; t.x, t = 1, nil; emit(u.x, t); local a, b = 1, 2; local w = {}; w.x, a, w.y, b = a, b, b, a; emit(w.x, a, w.y, b)`,
+	`local t = {}; emit(pcall(function() ("s").x = 1 end)); emit(t.x)`,
 }
